@@ -20,7 +20,7 @@ static std::string date822s(int64_t t) {
 }
 static std::string safe(const std::string &s) { std::string o; for (unsigned char c : s) { bool ok = isalnum(c) || strchr(".@%+/=:-[]", c); o += ok && c ? (char)c : '?'; } return o; }
 
-struct QMsg { std::string sender; std::vector<std::string> rcpts; std::string body, body_quirk; std::string received; bool via_stub = false; };
+struct QMsg { std::string sender; std::vector<std::string> rcpts; std::string body, body_quirk; std::string received; bool via_stub = false; bool orphan = false; /* committed by a queue program that was then killed before it could say so */ };
 
 struct SmtpConf {
   bool have_rcpthosts = false; std::set<std::string> rcpthosts, morercpthosts; bool have_more = false;
@@ -40,6 +40,7 @@ struct ModelOut {
   std::vector<std::string> helo_at_data;
   std::vector<std::string> phase_body, phase_quirk;   // reference decoding of every DATA phase that reached its terminator
   std::vector<size_t> phase_reply;                    // index of the reply that ends that phase
+  std::vector<int> phase_code_quirk;                  // the reply if the known dot-CR quirk of the decoder is taken into account (size limit)
 };
 
 // address parsing as the documents describe: optional <>, source route stripped, quoted strings and backslash escapes
@@ -158,7 +159,8 @@ static void model_smtp(const SmtpConf &cf, const std::string &in, const std::vec
         if (qq_code == 82 && qq_text.size() > 2) perm = qq_text[0] == 'D';
         code = perm ? 554 : 451;
       }
-      M.phase_reply.push_back(M.codes.size()); M.phase_body.push_back(body); { std::string qk; size_t u3 = 0; int h3 = 0; model_decode(in, data_start, u3, qk, h3, true); M.phase_quirk.push_back(qk); }
+      M.phase_reply.push_back(M.codes.size()); M.phase_body.push_back(body); { std::string qk; size_t u3 = 0; int h3 = 0; model_decode(in, data_start, u3, qk, h3, true); M.phase_quirk.push_back(qk);
+        M.phase_code_quirk.push_back(hops >= 100 ? 554 : (cf.databytes && qk.size() > cf.databytes) ? 552 : code); }
       reply(code, 'd'); M.data_outcome.push_back(code);
       M.helo_at_data.push_back(fakehelo ? helo : std::string("\x01"));
       if (code == 250) { QMsg m; m.sender = sender; m.rcpts = rcpts; m.body = body; { size_t u2 = 0; int h2 = 0; model_decode(in, data_start, u2, m.body_quirk, h2, true); } M.msgs.push_back(m); }
@@ -387,9 +389,14 @@ struct WorldSI : World, Net {
       if (mi) { std::string d = mi->data; size_t nl = d.find('\n'); d = nl == std::string::npos ? "" : d.substr(nl + 1);   // qmail-queue's own Received line
         size_t by = d.find("\n  by "); size_t end = by == std::string::npos ? std::string::npos : d.find('\n', by + 1);
         if (d.compare(0, 15, "Received: from ") == 0 && end != std::string::npos) { m.received = d.substr(0, end + 1); m.body = d.substr(end + 1); } else m.body = d; }
-      queued.push_back(m);
+      qq_commit[e.pid] = queued.size(); queued.push_back(m);
     }
+    // a queue program killed after its commit point cannot report the commit: the daemon answers "temporary failure" for a
+    // message that is in the queue (the sender will retry; duplicates are the price of at-least-once). Not a positive
+    // acknowledgement without a message, which is what the property forbids; such messages are set aside.
+    if (p->role == "qmail-queue" && e.call == C_EXIT && (e.a & 0x7f) != 0 && qq_commit.count(e.pid)) { queued[qq_commit[e.pid]].orphan = true; k->probe("queue_program_killed_after_commit"); }
   }
+  std::map<int, size_t> qq_commit;
 
   static std::vector<int> parse_codes(const std::string &rx, bool &garbled) {
     std::vector<int> v; size_t i = 0; garbled = false;
@@ -428,7 +435,7 @@ struct WorldSI : World, Net {
       bool okx = sig == 0 && (M.end == NtOut::MALFORMED ? (code == 100 || code == 111 || code == 0) : M.end == NtOut::ALARM ? code == 111 : code == 0);
       if (!okx) { violate("C07.nt-exit", "qmail-" + daemon + " ended with status " + std::to_string(code) + (sig ? " signal " + std::to_string(sig) : "") + ", the reference ends " + (M.end == NtOut::MALFORMED ? "100/111 (bad framing)" : M.end == NtOut::ALARM ? "111 (alarm)" : "0") + "; " + tr); return; } }
     // --- what reached the queue
-    std::vector<QMsg> q = queued;
+    std::vector<QMsg> q; for (auto &m0 : queued) if (!m0.orphan) q.push_back(m0);
     if (use_stub) { q.clear(); if (qq_code == 0) for (auto &st : stub_streams) { QMsg m; const std::string &ev = st.second; bool complete = ev.size() >= 3 && ev[0] == 'F' && ev[ev.size() - 1] == 0 && ev[ev.size() - 2] == 0; if (!complete) continue;
         size_t i = 0; while (i < ev.size()) { size_t z = ev.find('\0', i); if (z == std::string::npos) break; std::string r = ev.substr(i, z - i); if (!r.empty() && r[0] == 'F') m.sender = r.substr(1); else if (!r.empty() && r[0] == 'T') m.rcpts.push_back(r.substr(1)); i = z + 1; }
         std::string d = st.first; size_t by = d.find("\n  by "); size_t end = by == std::string::npos ? std::string::npos : d.find('\n', by + 1); if (d.compare(0, 15, "Received: from ") == 0 && end != std::string::npos) { m.received = d.substr(0, end + 1); m.body = d.substr(end + 1); } else m.body = d; m.via_stub = true; q.push_back(m); } }
@@ -474,6 +481,9 @@ struct WorldSI : World, Net {
     size_t n = std::min(got.size(), M.codes.size());
     for (size_t i = 0; i < n; i++) if (got[i] != M.codes[i]) {
       char kd = M.kind[i];
+      // the known dot-CR quirk makes the stored body one byte longer than the reference decoding: with a size limit in force that
+      // byte can decide between 250 and 552. Same finding, seen through the limit.
+      if (c05 && kd == 'd') { bool quirk = false; for (size_t j = 0; j < M.phase_reply.size(); j++) if (M.phase_reply[j] == i && j < M.phase_code_quirk.size() && M.phase_code_quirk[j] == got[i] && M.phase_quirk[j] != M.phase_body[j]) quirk = true; if (quirk) { known("C05.smtpd-dot-cr-keeps-dot"); return; } }
       const char *cls = kd == 'd' ? (M.codes[i] == 451 || got[i] == 451 ? (c05 ? "C05.data-reply" : nullptr) : (c07 ? "C07.data-reply" : nullptr)) : (c08 ? "C08.reply" : nullptr);
       // a divergence after a DATA phase usually means the two sides disagree on where the data ended
       bool after_data = false; for (size_t q = 0; q < i; q++) if (M.kind[q] == 'i') after_data = true;
@@ -487,7 +497,7 @@ struct WorldSI : World, Net {
       if (cls && !(got.size() < M.codes.size() && got.size() + 0 == n && false)) { violate(cls, std::to_string(got.size()) + " replies, the reference server gives " + std::to_string(M.codes.size()) + "; " + tr); return; }
     }
     // --- what reached the queue
-    std::vector<QMsg> q = queued;
+    std::vector<QMsg> q; for (auto &m0 : queued) if (!m0.orphan) q.push_back(m0);
     if (use_stub) { q.clear(); if (qq_code == 0) for (auto &s : stub_streams) { QMsg m;
         { const std::string &ev = s.second; bool complete = ev.size() >= 3 && ev[0] == 'F' && ev[ev.size() - 1] == 0 && ev[ev.size() - 2] == 0; if (!complete) continue; }  /* a queue program accepts only a terminated envelope (qmail-queue(8)) */
         const std::string &env = s.second; size_t i = 0; while (i < env.size()) { size_t z = env.find('\0', i); if (z == std::string::npos) break; std::string r = env.substr(i, z - i); if (!r.empty() && r[0] == 'F') m.sender = r.substr(1); else if (!r.empty() && r[0] == 'T') m.rcpts.push_back(r.substr(1)); i = z + 1; }
